@@ -235,7 +235,10 @@ def run(res: Results, idx: Index, tier: str) -> None:
         from . import c02, c07
         res.rule("R-C04e", "symbol identity survives the optimizer's shape guard (C02 R-C02c) and the function dedup key (C07 R-C07a input signature)", floor=2)
         n_x = 0
-        for mod, prop, pick in ((c02, "C02", lambda i_: i_.rule == "R-C02c"), (c07, "C07", lambda i_: i_.rule == "R-C07a" and i_.key.endswith("::input-signature"))):
+        from . import c12
+        for mod, prop, pick in ((c02, "C02", lambda i_: i_.rule == "R-C02c"), (c07, "C07", lambda i_: i_.rule == "R-C07a" and i_.key.endswith("::input-signature")),
+                                # an NCHW graph input: each symbol's origin is the axis of the EXTERNAL (permuted) value it lives on
+                                (c12, "C12", lambda i_: i_.rule == "R-C12a" and i_.key.endswith("::origin-on-external-value"))):
             sub = Results(prop, tier)
             setattr(sub, "_nested_xref", True)
             mod.run(sub, idx, tier)
@@ -243,7 +246,7 @@ def run(res: Results, idx: Index, tier: str) -> None:
                 if pick(inst):
                     n_x += 1
                     res.add("R-C04e", inst.status, inst.site, f"{inst.rule}::{inst.key}", f"[{prop} {inst.rule}] {inst.detail}", inst.func)
-        if n_x < 2:
+        if n_x < 3:
             raise AnalysisError(f"only {n_x} cross-referenced symbol-identity instances found")
 
 
